@@ -261,19 +261,26 @@ impl StringPool {
         self.is_modified = true;
         // TODO: change the internal representation of StringPool to make this
         // more efficient.
-        for (index, &mut (ref mut st, ref mut refcount)) in
+        // An entry that already holds the string is preferred over an earlier
+        // free slot, so that the pool never spends two entries on one string
+        // (unless the first one's refcount is saturated).
+        let mut free_slot = None;
+        for (index, &mut (ref st, ref mut refcount)) in
             self.strings.iter_mut().enumerate()
         {
             if *refcount == 0 {
                 debug_assert_eq!(st, "");
-                *st = string;
-                *refcount = 1;
-                return Some(StringRef((index + 1) as i32));
-            }
-            if *st == string && *refcount < u16::MAX {
+                if free_slot.is_none() {
+                    free_slot = Some(index);
+                }
+            } else if *st == string && *refcount < u16::MAX {
                 *refcount += 1;
                 return Some(StringRef((index + 1) as i32));
             }
+        }
+        if let Some(index) = free_slot {
+            self.strings[index] = (string, 1);
+            return Some(StringRef((index + 1) as i32));
         }
         if self.strings.len() >= self.max_entries() {
             return None;
